@@ -1299,6 +1299,12 @@ func parseDescriptors(i *astikit.BytesIterator) (o []*Descriptor, err error) {
 				// previously therefore we must fetch bytes in descriptor functions and seek at the end
 				offsetDescriptorEnd := i.Offset() + int(d.Length)
 
+				// A descriptor can't be longer than what's left of the loop it's in
+				if offsetDescriptorEnd > offsetEnd {
+					err = fmt.Errorf("astits: descriptor with tag 0x%x and length %d goes past the end of the descriptors loop", d.Tag, d.Length)
+					return
+				}
+
 				// User defined
 				if d.Tag >= 0x80 && d.Tag <= 0xfe {
 					// Get next bytes
